@@ -194,6 +194,11 @@ def classify(js, stdout, units):
                     else:
                         entry["undetermined"].append(f"{name} [{status}]")
                     continue
+                if status == "Failure" and (desc.startswith("NaN on ") or cat == "NaN"):
+                    # CBMC's --nan-check flags any operation that PRODUCES a NaN; that is defined behaviour in
+                    # Rust and no property here forbids it: recorded, never a violation
+                    entry.setdefault("nan_checks_ignored", []).append(f"{desc} @ {where}")
+                    continue
                 if status == "Failure":
                     if cat == "unsupported_construct" or "not currently supported" in desc or cat == "unwind" or "unwinding assertion" in desc:
                         entry["unsupported"].append(f"{desc[:120]} @ {where}")
@@ -210,7 +215,7 @@ def classify(js, stdout, units):
                 entry["status"] = "timeout"
             elif entry["obligations_failed"] or entry["safety_failed"]:
                 entry["status"] = "violation"
-            elif entry["unsupported"] or entry["undetermined"] or r.get("status") != "Success":
+            elif entry["unsupported"] or entry["undetermined"] or (r.get("status") != "Success" and not entry.get("nan_checks_ignored")):
                 entry["status"] = "undecided"
             elif entry["covers_unsat"]:
                 entry["status"] = "undecided"   # vacuity guard
